@@ -3026,3 +3026,82 @@ Proof.
   intros Hwf Hld Ha ne. destruct (rest_filter g Hwf Hld a Ha) as [H1 [H2 H3]]. fold ne in H1, H2, H3.
   split; [exact H1 | split; [exact H3|]]. intros x. rewrite H2. apply rest_members; assumption.
 Qed.
+
+From PV Require Import C05.Access.
+
+(* ================================================================================================ *)
+(* 19. flow accessors (C05/Access.v)                                                                *)
+(* ================================================================================================ *)
+Lemma node_entry g u : In u (nodes g) -> In (u, adj_of g u) g.
+Proof. intros H. destruct (adj_of_cases g u) as [Hin|[_ Hn]]; [exact Hin | contradiction]. Qed.
+
+Lemma has_edge_lookup g u v : has_edge g u v = true <-> exists r, adj_lookup (adj_of g u) v = Some r.
+Proof.
+  unfold has_edge. destruct (adj_lookup (adj_of g u) v) as [r|]; split; intros H; try discriminate.
+  - exists r. reflexivity.
+  - reflexivity.
+  - destruct H as [r H]. discriminate.
+Qed.
+
+Lemma in_edges_iff g v u r : NoDup (nodes g) ->
+  (In (u, r) (in_edges g v) <-> In u (nodes g) /\ adj_lookup (adj_of g u) v = Some r).
+Proof.
+  intros Hn. unfold in_edges. rewrite in_flat_map. split.
+  - intros [[w a] [Hp H]]. cbn [fst snd] in H. destruct (adj_lookup a v) as [r'|] eqn:E; [|destruct H].
+    destruct H as [H|[]]. injection H as <- <-. split.
+    + apply in_map_iff. exists (w, a). split; [reflexivity | exact Hp].
+    + rewrite (adj_of_In g w a Hn Hp). exact E.
+  - intros [Hu Hl]. exists (u, adj_of g u). split; [apply node_entry, Hu|]. cbn [fst snd]. rewrite Hl. left. reflexivity.
+Qed.
+
+(* get_compartment_outflows lists exactly the stored edges of the compartment, with their rates, in adjacency order *)
+Theorem outflows_lemma g u : WF g -> In u (nodes g) ->
+  outflows g u = adj_of g u /\ (forall v r, In (v, r) (outflows g u) -> get_flow g u v = r).
+Proof.
+  intros [_ [_ Hw]] Hu. destruct (Hw _ _ (node_entry g u Hu)) as [Hk _].
+  assert (E : outflows g u = adj_of g u).
+  { unfold outflows. rewrite <- (map_id (adj_of g u)) at 2. apply map_ext_in. intros [v r] Hin. cbn [fst].
+    unfold get_flow. rewrite (adj_lookup_NoDup _ v r Hk Hin). reflexivity. }
+  split; [exact E|]. intros v r Hin. rewrite E in Hin. unfold get_flow. rewrite (adj_lookup_NoDup _ v r Hk Hin). reflexivity.
+Qed.
+
+(* get_compartment_inflows(v): the nodes with an edge to v, in node order, each with the rate of that edge *)
+Theorem inflows_lemma g v u r : WF g ->
+  (In (u, r) (inflows g v) <-> In u (nodes g) /\ adj_lookup (adj_of g u) v = Some r).
+Proof.
+  intros [_ [Hn _]]. unfold inflows, preds_of. rewrite map_map, in_map_iff. split.
+  - intros [[w r'] [E Hin]]. cbn [fst] in E. injection E as <- <-. apply (in_edges_iff g v w r' Hn) in Hin.
+    destruct Hin as [Hw Hl]. split; [exact Hw|]. unfold get_flow. rewrite Hl. reflexivity.
+  - intros [Hu Hl]. exists (u, r). split; [cbn [fst]; unfold get_flow; rewrite Hl; reflexivity|].
+    apply (in_edges_iff g v u r Hn). split; assumption.
+Qed.
+
+(* every outflow of u to v is an inflow of v from u with the same rate, and conversely *)
+Theorem out_in_duality_lemma g u v r : WF g -> In u (nodes g) ->
+  (In (v, r) (outflows g u) <-> In (u, r) (inflows g v)).
+Proof.
+  intros Hwf Hu. rewrite (inflows_lemma g v u r Hwf). destruct (outflows_lemma g u Hwf Hu) as [E _]. rewrite E.
+  pose proof Hwf as [_ [_ Hw]]. destruct (Hw _ _ (node_entry g u Hu)) as [Hk _]. split.
+  - intros Hin. split; [exact Hu | apply adj_lookup_NoDup; assumption].
+  - intros [_ Hl]. apply adj_lookup_In, Hl.
+Qed.
+
+(* get_bidirectionals(c): the nodes with a flow to c AND a flow from c *)
+Theorem bidirectionals_lemma g c u : WF g ->
+  (In u (bidirectionals g c) <-> In u (nodes g) /\ has_edge g u c = true /\ has_edge g c u = true).
+Proof.
+  intros [_ [Hn _]]. unfold bidirectionals, preds_of. rewrite filter_In, in_map_iff. split.
+  - intros [[[w r] [E Hin]] Hc]. cbn [fst] in E. subst w. apply (in_edges_iff g c u r Hn) in Hin. destruct Hin as [Hu Hl].
+    split; [exact Hu | split; [apply has_edge_lookup; exists r; exact Hl | exact Hc]].
+  - intros [Hu [H1 H2]]. apply has_edge_lookup in H1. destruct H1 as [r Hl]. split; [|exact H2].
+    exists (u, r). split; [reflexivity | apply (in_edges_iff g c u r Hn); split; assumption].
+Qed.
+
+(* len(cs) is the number of compartments *)
+Theorem cs_len_lemma g : WF g -> cs_len g = length (comps g).
+Proof.
+  intros [[tl E] [Hn _]]. subst g. unfold cs_len. cbn [nodes map fst length comps]. rewrite Nat.sub_succ, Nat.sub_0_r.
+  cbn [nodes map fst] in Hn. inversion Hn as [|? ? Ho _]; subst. clear Hn. fold (nodes tl) in Ho.
+  induction tl as [|[[|c] a] tl' IH]; cbn [map length comps fst] in *; [reflexivity | exfalso; apply Ho; left; reflexivity|].
+  f_equal. apply IH. intros H. apply Ho. right. exact H.
+Qed.
